@@ -10,6 +10,7 @@ import (
 	"go/token"
 	"go/types"
 	"os"
+	"sort"
 	"strings"
 
 	"gosym/smt"
@@ -435,6 +436,11 @@ func (ex *Exec) evalModel(st *State, cond *smt.Term) (bool, bool) {
 
 // checkWithModel decides pc /\ c and returns a model when sat.
 func (ex *Exec) checkWithModel(st *State, c *smt.Term) (smt.Result, map[string]uint64) {
+	if qsitesOn {
+		qsitesMu.Lock()
+		qsites[ex.where(st)]++
+		qsitesMu.Unlock()
+	}
 	r := ex.S.Check(st.PC, c)
 	if r == smt.Sat {
 		return r, ex.modelOf(st)
@@ -833,8 +839,8 @@ func (ex *Exec) callValue(st *State, fr *Frame, fnv Value, args []Value, retTo s
 		if f.Fn == nil {
 			ex.goPanic(st, "call of nil function")
 		}
-		if r, ok := st.Repl[f.Fn.String()]; ok {
-			f = r
+		if r, ok := st.Repl[f.Fn.String()]; ok && !ex.inHarnessFile(fr.Fn) {
+			f = r // a replacement stands for the function everywhere except in calls made by the harness itself
 		}
 		if f.Fn.Synthetic == "package initializer" {
 			fr.IP++
@@ -1274,4 +1280,42 @@ func sub0(p Ptr) int {
 		return p.Path[0]
 	}
 	return -2
+}
+
+// inHarnessFile: fn (or the function it is nested in) is defined in an injected harness file.
+func (ex *Exec) inHarnessFile(fn *ssa.Function) bool {
+	for fn != nil && fn.Parent() != nil {
+		fn = fn.Parent()
+	}
+	if fn == nil || fn.Prog == nil || !fn.Pos().IsValid() {
+		return false
+	}
+	return strings.Contains(fn.Prog.Fset.Position(fn.Pos()).Filename, "zz_verif_")
+}
+
+// query-site profile (GOSYM_QSITES=1): which branch sites ask the solver
+var qsitesOn = os.Getenv("GOSYM_QSITES") != ""
+var qsitesMu sync.Mutex
+var qsites = map[string]int{}
+
+// DumpQSites prints the branch sites with the most solver-decided conditions.
+func DumpQSites() {
+	if !qsitesOn {
+		return
+	}
+	type kv struct {
+		k string
+		v int
+	}
+	var l []kv
+	for k, v := range qsites {
+		l = append(l, kv{k, v})
+	}
+	sort.Slice(l, func(a, b int) bool { return l[a].v > l[b].v })
+	for i, e := range l {
+		if i >= 25 {
+			break
+		}
+		fmt.Fprintf(os.Stderr, "qsite %7d %s\n", e.v, e.k)
+	}
 }
